@@ -245,7 +245,7 @@ def lexed_tokens_ordered(ctx, hb, tix, programs):
                                                    "observed": o[:2000], "expected": r, "n_failing_cases": len(fails)})
         raise core.Violation("lexed_tokens_ordered: " + r, path, True)
     return {"texts": orc.texts, "programs": len(programs), "tokens": orc.tokens, "texts_with_empty_comment": orc.with_empty_comment,
-            "non_ascii_texts": sum(1 for c in texts if not all(int(x) < 128 for x in c.split(".")))}
+            "non_ascii_texts": sum(1 for c in cases if c and not all(int(x) < 128 for x in c.split(".")))}
 
 
 def correspondence(ctx, broken_obligations=()):
